@@ -26,3 +26,9 @@ def _(d: Dict[Int, Int]) -> Seq[Tuple[Int, Int]]:
     ensures(forall(Int, Int, lambda a, b: implies(0 <= a and a < b and b < len(result), result[a][0] != result[b][0])), 'keys_once')
     ensures(forall(Int, Int, lambda a, b: implies(0 <= a and a <= b and b < len(result), result[a][1] <= result[b][1])), 'ordered_by_value')
     ensures(forall(Int, lambda k: implies(has_key(d, k), exists(Int, lambda j: 0 <= j and j < len(result) and result[j][0] == k))), 'every_key_listed')
+
+
+@trusted('builtins.sorted.ints', trusted='A-SORT: sorted(xs) on integers is the ascending sort (insertion-sort spec ssort_ints), a new list; validated boundedly in bounded/jobs_deps.py')
+def _(v: List[Int]) -> List[Int]:
+    ensures(is_fresh(result) and contents(result) == ssort_ints(contents(v)) and len(result) == len(v), 'sorted_copy')
+    ensures(contents(v) == old(contents(v)), 'argument_untouched')
